@@ -3,6 +3,7 @@
 CFGS = {
     "prod": {},
     "small8": {"CONFIG_MAX_MESSAGE_SIZE": 8, "CONFIG_MAX_WRITE_BUFFER_SIZE": 8},
+    "small4": {"CONFIG_MAX_MESSAGE_SIZE": 4, "CONFIG_MAX_WRITE_BUFFER_SIZE": 4},
     "small16": {"CONFIG_MAX_MESSAGE_SIZE": 16, "CONFIG_MAX_WRITE_BUFFER_SIZE": 16},
 }
 
@@ -50,32 +51,32 @@ PROPERTY_META["C18"] = {
     "not_decided": ["big-endian targets", "texts longer than 10^6 bytes"],
     "assumptions": ["little-endian byte order (x86_64)", "text length <= 1,000,000 bytes (precondition of the sequence contracts)"],
 }
-unit("utf8.step", ["C18", "C06"], "units/utf8_step.c", enforce="is_byte_valid",
+unit("utf8.step", ["C18"], "units/utf8_step.c", enforce="is_byte_valid",
      functions=["is_byte_valid"], min_obligations={"postcondition": 2},
      expect_tags=["C18.step.verdict", "C18.step.state-simulates"], replay=U8_REPLAY, timeout=120)
-unit("utf8.bytes", ["C18", "C06"], "units/utf8_bytes.c", entry="h_utf8_bytes",
+unit("utf8.bytes", ["C18"], "units/utf8_bytes.c", entry="h_utf8_bytes",
      enforce="cjet_is_byte_sequence_valid", replace=["is_byte_valid"], loop_contracts=True,
      functions=["cjet_is_byte_sequence_valid"],
      min_obligations={"postcondition": 4, "loop_invariant_step": 1, "loop_invariant_base": 1},
      expect_tags=["C18.bytes.verdict"], replay=U8_REPLAY, timeout=120)
-unit("utf8.text", ["C18", "C06"], "units/utf8_bytes.c", entry="h_utf8_text",
+unit("utf8.text", ["C18"], "units/utf8_bytes.c", entry="h_utf8_text",
      enforce="cjet_is_text_valid", replace=["is_byte_valid"], loop_contracts=True,
      functions=["cjet_is_text_valid"],
      min_obligations={"postcondition": 4, "loop_invariant_step": 1, "loop_invariant_base": 1},
      expect_tags=["C18.text.verdict"], replay=U8_REPLAY, timeout=120)
-unit("utf8.word32", ["C18", "C06"], "units/utf8_bytes.c", entry="h_utf8_word32",
+unit("utf8.word32", ["C18"], "units/utf8_bytes.c", entry="h_utf8_word32",
      enforce="cjet_is_word_sequence_valid", replace=["is_byte_valid"], loop_contracts=True,
      unwind_loops=[("cjet_is_word_sequence_valid", r"j < sizeof\(tmp\)", 5)],
      functions=["cjet_is_word_sequence_valid"],
      min_obligations={"postcondition": 4, "loop_invariant_step": 1, "loop_invariant_base": 1, "unwind": 1},
      expect_tags=["C18.word32.verdict"], replay=U8_REPLAY, timeout=300)
-unit("utf8.word64", ["C18", "C06"], "units/utf8_bytes.c", entry="h_utf8_word64",
+unit("utf8.word64", ["C18"], "units/utf8_bytes.c", entry="h_utf8_word64",
      enforce="cjet_is_word64_sequence_valid", replace=["is_byte_valid"], loop_contracts=True,
      unwind_loops=[("cjet_is_word64_sequence_valid", r"j < sizeof\(tmp\)", 9)],
      functions=["cjet_is_word64_sequence_valid"],
      min_obligations={"postcondition": 4, "loop_invariant_step": 1, "loop_invariant_base": 1, "unwind": 1},
      expect_tags=["C18.word64.verdict"], replay=U8_REPLAY, timeout=300)
-unit("utf8.auto", ["C18", "C06"], "units/utf8_bytes.c", entry="h_utf8_auto",
+unit("utf8.auto", ["C18"], "units/utf8_bytes.c", entry="h_utf8_auto",
      enforce="cjet_is_word_sequence_valid_auto_alligned",
      replace=["cjet_is_byte_sequence_valid", "cjet_is_word_sequence_valid", "cjet_is_word64_sequence_valid", "cjet_init_checker"],
      functions=["cjet_is_word_sequence_valid_auto_alligned"],
@@ -112,7 +113,7 @@ def ht_units(order, kind, tier):
                 # its body is replaced by assert(false) so that reaching it fails an obligation
                 c2["goto_instrument_args"] = ["--remove-function-body", "find_closer_entry_VT", "--generate-function-body", "find_closer_entry_VT",
                                               "--generate-function-body-options", "assert-false-assume-false"]
-            unit("ht.%s.%s.%d" % (op, sfx, i + 1), ["C17", "C06"], "units/ht.c", entry="h_ht_" + op,
+            unit("ht.%s.%s.%d" % (op, sfx, i + 1), ["C17"], "units/ht.c", entry="h_ht_" + op,
                  functions=["%s_<name> (order %d, %s keys)" % (fn, order, kind)], expect_tags=[tag], timeout=600, **c2)
 
 
@@ -125,7 +126,7 @@ ht_units(3, "u32", "quick")
 MATCH_FNS = ["equals_match", "contains_match", "startswith_match", "endswith_match", "equalsnot_match", "containsallof_match"]
 for _w in range(12):
     _fn = MATCH_FNS[_w % 6] + ("_ignore_case" if _w >= 6 else "")
-    unit("match.fn.%s" % _fn, ["C16", "C06"], "units/match_fn.c", entry="h_match_fn", kind="bounded",
+    unit("match.fn.%s" % _fn, ["C16"], "units/match_fn.c", entry="h_match_fn", kind="bounded",
          bound="path <= 4 bytes, operands <= 3 bytes, containsAllOf <= 2 operands, all byte values (thorough: 6/4)",
          unwind=8, defines=["MS_WHICH=%d" % _w], defines_thorough=["MS_PLEN=6", "MS_OLEN=4"], unwind_thorough=10, functions=[_fn],
          expect_tags=["C16.match.function-equals-reference-predicate"], timeout=300, solver="cadical",
@@ -182,21 +183,21 @@ def cut(fns):
     return a + ["--generate-function-body", "|".join(fns), "--generate-function-body-options", "assert-false-assume-false"]
 
 
-BS_COMMON = dict(cfg="small8", solver="cadical", unwind=10, cbmc_unwindset=["arbitrary_reader_state.0:26", "arbitrary_reader_state.1:10"], mem_gb=24, kind="proof",
-                 bound="configuration CONFIG_MAX_MESSAGE_SIZE = CONFIG_MAX_WRITE_BUFFER_SIZE = 8 (all loops bounded by the buffer size; unwinding assertions on); frames of <= 2 x 6 bytes; input streams of <= 24 bytes",
+BS_COMMON = dict(cfg="small4", defines=["BS_IOV_MAX=3", "IN_MAX=12"], solver="cadical", unwind=6, cbmc_unwindset=["arbitrary_reader_state.0:14", "arbitrary_reader_state.1:6"], mem_gb=24, kind="proof",
+                 bound="configuration CONFIG_MAX_MESSAGE_SIZE = CONFIG_MAX_WRITE_BUFFER_SIZE = 4 (all loops bounded by the buffer size; unwinding assertions on); frames of <= 2 x 3 bytes; input streams of <= 12 bytes",
                  assumes=["ghost kernel: writev accepts any non-empty prefix or fails with any errno; read delivers any non-empty prefix of the stream, 0 or -1",
                           "memcpy/memmove/memmem: byte-loop models"])
 BS_WRITE = dict(BS_COMMON, goto_instrument_args=cut(["read_function", "go_reading", "get_read_ptr", "internal_read_until"]) + ["--restrict-function-pointer", "error_function.function_pointer_call.1/stub_error"])
 BS_READ = dict(BS_COMMON, goto_instrument_args=cut(["write_function", "send_buffer", "read_function", "go_reading", "error_function"]))
-unit("bs.writev", ["C10", "C06"], "units/bs.c", entry="h_bs_writev",
+unit("bs.writev", ["C10"], "units/bs.c", entry="h_bs_writev",
      functions=["buffered_socket_writev", "copy_iovec_to_write_buffer", "copy_single_buffer", "send_buffer"],
-     expect_tags=["C10.writev.accepted-frame-sent-or-pending-completely", "C10.writev.bytes-in-generation-order", "C10.writev.refused-frame-leaves-no-byte-behind"], timeout=1200, **BS_WRITE)
-unit("bs.flush", ["C10", "C06"], "units/bs.c", entry="h_bs_flush", functions=["write_function", "send_buffer", "error_function"],
-     expect_tags=["C10.flush.nothing-lost-nothing-duplicated", "C10.flush.bytes-in-order"], timeout=1200, **BS_WRITE)
-unit("bs.read_exactly", ["C09", "C06"], "units/bs.c", entry="h_bs_read_exactly", functions=["get_read_ptr", "fill_buffer", "reorganize_read_buffer"],
-     expect_tags=["C09.exact.hands-out-the-next-stream-bytes-whatever-the-chunking", "C09.exact.buffer-still-mirrors-the-stream"], timeout=1200, **BS_READ)
-unit("bs.read_until", ["C09", "C06"], "units/bs.c", entry="h_bs_read_until", functions=["internal_read_until", "fill_buffer", "reorganize_read_buffer"],
-     expect_tags=["C09.until.hands-out-the-next-stream-bytes", "C09.until.stops-at-the-first-delimiter"], timeout=1200, **BS_READ)
+     expect_tags=["C10.writev.accepted-frame-sent-or-pending-completely", "C10.writev.bytes-in-generation-order", "C10.writev.refused-frame-leaves-no-byte-behind"], timeout=700, **BS_WRITE)
+unit("bs.flush", ["C10"], "units/bs.c", entry="h_bs_flush", functions=["write_function", "send_buffer", "error_function"],
+     expect_tags=["C10.flush.nothing-lost-nothing-duplicated", "C10.flush.bytes-in-order"], timeout=700, **BS_WRITE)
+unit("bs.read_exactly", ["C09"], "units/bs.c", entry="h_bs_read_exactly", functions=["get_read_ptr", "fill_buffer", "reorganize_read_buffer"],
+     expect_tags=["C09.exact.hands-out-the-next-stream-bytes-whatever-the-chunking", "C09.exact.buffer-still-mirrors-the-stream"], timeout=700, **BS_READ)
+unit("bs.read_until", ["C09"], "units/bs.c", entry="h_bs_read_until", functions=["internal_read_until", "fill_buffer", "reorganize_read_buffer"],
+     expect_tags=["C09.until.hands-out-the-next-stream-bytes", "C09.until.stops-at-the-first-delimiter"], timeout=700, **BS_READ)
 
 # ------------------------------------------------------------------------------------------
 # C02 JSON-RPC discipline (response.c, parse.c)
@@ -205,7 +206,7 @@ CJ_ASSUME = ["cJSON: executable model stubs/cjson_model.h (assumed contract of t
 for _h, _fns in (("error", ["create_error_response", "create_error_object", "create_common_response", "add_subobject_to_object"]),
                  ("result", ["create_result_response", "create_common_response"]),
                  ("from_request", ["create_error_response_from_request", "create_success_response_from_request", "create_result_response_from_request"])):
-    unit("resp." + _h, ["C02", "C06"], "units/resp.c", entry="h_resp_" + _h, functions=_fns, unwind=20, solver="cadical",
+    unit("resp." + _h, ["C02"], "units/resp.c", entry="h_resp_" + _h, functions=_fns, unwind=20, solver="cadical",
          kind="proof", bound="id strings <= 3 characters; every id type and every double; string literals <= 24 characters",
          flags=["--memory-leak-check"], timeout=300, assumes=CJ_ASSUME)
     unit("resp.%s.allocfail" % _h, ["C15"], "units/resp.c", entry="h_resp_" + _h, functions=_fns, unwind=20, solver="cadical",
@@ -303,6 +304,44 @@ PROPERTY_META["C08"] = {
     "level_note": ("Covered: peer initialisation and the group algebra. NOT covered yet: handle_authentication (failed authentication changes nothing), the checks at fetch/get/set/call, password flow, origin classification. cJSON is an assumed model."),
     "explanation": "C08: harness contracts on init_peer, get_groups, has_access.",
     "not_decided": ["authenticate.c", "auth_file.c", "access checks in fetch.c/element.c", "is_localhost"],
+}
+
+# ------------------------------------------------------------------------------------------
+# C14 deadlines (timer.c), C07 allocation accounting (alloc.c)
+# ------------------------------------------------------------------------------------------
+unit("to.value", ["C14", "C06"], "units/u_timer.c", entry="h_to_value", functions=["get_timeout_in_nsec", "convert_seconds_to_nsec"], unwind=4, solver="cadical",
+     flags=["--conversion-check", "--float-overflow-check"], expect_tags=["C14.value.accepted-timeout-is-the-given-value", "C14.value.timeout-below-one-millisecond-refused"], timeout=300,
+     assumes=["IEEE-754 double semantics as modelled by cbmc", "the JSON parser never yields NaN"])
+unit("alloc.acct", ["C07", "C15", "C06"], "units/u_alloc.c", entry="h_alloc_acct", functions=["cjet_malloc", "cjet_calloc", "cjet_free", "cjet_get_alloc_size"], unwind=4, solver="cadical",
+     flags=["--malloc-may-fail", "--malloc-fail-null"], expect_tags=["C07.alloc.accounting-exact", "C07.alloc.cap-respected"], timeout=300,
+     assumes=["request sizes <= 2^32 bytes, nmemb <= 2^16 (derived from the call sites)"])
+
+PROPERTY_META["C14"] = {
+    "level": "proof",
+    "level_text": ("get_timeout_in_nsec is proved over every JSON type and every double (incl. +-inf): absent -> default; non-number or < 0.001 s -> refused with an invalid-params error and 0; "
+                   "otherwise the nanosecond value of the given timeout (no undefined conversion, no float overflow)."),
+    "level_note": ("Only the value/refusal clause is covered. NOT covered: precedence (request > element > configured default) in element.c/router.c, timer arming and cancellation, 'never early' and the "
+                   "same-batch reply/expiry hazard in eventloop_epoll.c (kernel timing is outside this family altogether)."),
+    "explanation": "C14: loop-free full-domain harness contract on get_timeout_in_nsec / convert_seconds_to_nsec (cbmc IEEE-754 semantics, conversion and float-overflow checks on).",
+    "not_decided": ["timeout precedence", "timer lifecycle", "event-batch hazard", "wall-clock clauses"],
+}
+PROPERTY_META["C07"] = {
+    "level": "proof",
+    "level_text": ("alloc.c: for every accounted heap size up to the cap and every request (malloc and calloc, the OS allocation may fail): a failed allocation accounts nothing, a successful one accounts exactly size + header, "
+                   "never exceeds the configured cap, returns a block large enough (zeroed for calloc), and cjet_free returns exactly the accounted amount."),
+    "level_note": ("Only the allocator's accounting is covered. NOT covered: descriptor and timer reclamation, peer count, SIGTERM shutdown, double close - the history-level clauses of C07 are outside per-function contracts "
+                   "(request sizes are bounded by 2^32 bytes / 2^16 members, the call sites' range)."),
+    "explanation": "C07: loop-free harness contract on cjet_malloc / cjet_calloc / cjet_free.",
+    "not_decided": ["timerfd / descriptor lifecycle", "shutdown", "whole-run balance"],
+}
+PROPERTY_META["C06"] = {
+    "level": "proof",
+    "level_text": ("Function-wise memory safety: cbmc's bounds / pointer / pointer-arithmetic / signed-overflow / shift checks are discharged for the covered functions under their representation invariants only: "
+                   "the peer log line for peer names of any length, the WebSocket header state machine, frame dispatch (no call through an unset callback) and unmasking, peer initialisation, group bits."),
+    "level_note": ("C06 is decided per covered function, NOT for the assembled daemon: 'no byte sequence on any endpoint' over all segmentations and interleavings is outside per-function contracts. The anchors "
+                   "parse_message (NUL-terminated parse of a length-delimited buffer), the fetch matcher array (thorough tier: match.parse) and the epoll batch dispatch are not covered in the quick tier."),
+    "explanation": "C06: safety obligations of the units tagged C06 (see units).",
+    "not_decided": ["whole-daemon input robustness", "parse.c message boundary", "http_parser / cJSON internals"],
 }
 
 # properties whose units are not yet passing within the quick budget are not claimed (see MANIFEST not_applicable)
